@@ -15,10 +15,12 @@ from common import Outcome, log, run_tlc, write_evidence
 # property -> list of (module, cfg, workers, timeout_quick, timeout_thorough) exhaustive design-level models
 _IX = [("Indexer.tla", "Indexer_a.cfg", 8, 600, 600), ("Indexer.tla", "Indexer_b.cfg", 8, 900, 900)]
 _IX_T = _IX + [("Indexer.tla", "Indexer_c.cfg", 8, 1800, 1800), ("Indexer.tla", "Indexer_d.cfg", 8, 1800, 1800)]
-LEVEL_A = {"C12": _IX, "C13": _IX, "C14": _IX}
-LEVEL_A_THOROUGH = {"C12": _IX_T, "C13": _IX_T, "C14": _IX_T}
+_SL = [("SatLedger.tla", "SatLedger.cfg", 8, 900, 900)]
+_SL_T = _SL + [("SatLedger.tla", "SatLedger_c.cfg", 8, 5400, 5400)]
+LEVEL_A = {"C12": _IX, "C13": _IX, "C14": _IX, "C01": _SL, "C02": _SL}
+LEVEL_A_THOROUGH = {"C12": _IX_T, "C13": _IX_T, "C14": _IX_T, "C01": _SL_T, "C02": _SL_T}
 
-LEVELS = {"C21": "model_checking", "C22": "model_checking", "C23": "model_checking", "C24": "model_checking", "C27": "model_checking", "C36": "model_checking", "C26": "model_checking", "C29": "model_checking", "C20": "model_checking", "C12": "model_checking", "C13": "fault_enumeration", "C14": "model_checking"}
+LEVELS = {"C01": "model_checking", "C02": "model_checking", "C21": "model_checking", "C22": "model_checking", "C23": "model_checking", "C24": "model_checking", "C27": "model_checking", "C36": "model_checking", "C26": "model_checking", "C29": "model_checking", "C20": "model_checking", "C12": "model_checking", "C13": "fault_enumeration", "C14": "model_checking"}
 
 ASSUME_PROTO = [
     "content equality is judged on a digest of every table row except WRITE_TRANSACTION_STARTING_BLOCK_COUNT_TO_TIMESTAMP "
